@@ -161,22 +161,24 @@ class ClosureTableSaving(BaseSaving):
         return np.column_stack([T[s, e] for T in self.tables_]).astype(float)
 
 
-def _hash_vals(seed, cols, modulus):
+def _hash_vals(seed, cols, modulus, signed=False):
     h = np.full(cols[0].shape, np.uint64(seed * 2654435761 % (2**32) + 12345), dtype=np.uint64)
     for c in cols:
         h = (h ^ c.astype(np.uint64)) * np.uint64(1099511628211)
         h = h ^ (h >> np.uint64(29))
-    return (h % np.uint64(modulus)).astype(np.int64)
+    v = (h % np.uint64(modulus)).astype(np.int64)
+    return v - modulus // 2 if signed else v  # signed: genuinely negative scores in some columns
 
 
 class HashChangeScore(BaseChangeScore):
     """Arbitrary integer-valued change score: a seeded hash of (start, split, end, column)."""
 
-    def __init__(self, seed=0, modulus=7, minsize=1, multivariate=False):
+    def __init__(self, seed=0, modulus=7, minsize=1, multivariate=False, signed=False):
         self.seed = seed
         self.modulus = modulus
         self.minsize = minsize
         self.multivariate = multivariate
+        self.signed = signed
         # an inherently multivariate score returns ONE column whatever the number of variables
         self.evaluation_type = "multivariate" if multivariate else "univariate"
         super().__init__()
@@ -192,17 +194,18 @@ class HashChangeScore(BaseChangeScore):
     def _evaluate(self, cuts):
         cols = [cuts[:, 0], cuts[:, 1], cuts[:, 2]]
         return np.column_stack(
-            [_hash_vals(self.seed + 31 * j, cols, self.modulus) for j in range(self.p_)]
+            [_hash_vals(self.seed + 31 * j, cols, self.modulus, self.signed) for j in range(self.p_)]
         ).astype(float)
 
 
 class HashLocalAnomalyScore(BaseLocalAnomalyScore):
     """Arbitrary integer-valued local anomaly score: seeded hash of the 4-point cut."""
 
-    def __init__(self, seed=0, modulus=7, multivariate=False):
+    def __init__(self, seed=0, modulus=7, multivariate=False, signed=False):
         self.seed = seed
         self.modulus = modulus
         self.multivariate = multivariate
+        self.signed = signed
         self.evaluation_type = "multivariate" if multivariate else "univariate"
         super().__init__()
 
@@ -213,7 +216,7 @@ class HashLocalAnomalyScore(BaseLocalAnomalyScore):
     def _evaluate(self, cuts):
         cols = [cuts[:, 0], cuts[:, 1], cuts[:, 2], cuts[:, 3]]
         return np.column_stack(
-            [_hash_vals(self.seed + 31 * j, cols, self.modulus) for j in range(self.p_)]
+            [_hash_vals(self.seed + 31 * j, cols, self.modulus, self.signed) for j in range(self.p_)]
         ).astype(float)
 
 
@@ -283,11 +286,21 @@ def stat_sum(x):
     return float(np.sum(x))
 
 
+def stat_std1(x):
+    """sample standard deviation: undefined (NaN) on a one-sample segment"""
+    with np.errstate(all="ignore"):
+        import warnings
+
+        with warnings.catch_warnings():
+            warnings.simplefilter("ignore")
+            return float(np.std(x, ddof=1))
+
+
 FUNCTIONS = {
     f.__name__: f
     for f in [
         pen_const_only, pen_equal_betas, pen_decreasing_betas, pen_increasing_betas,
-        pen_zero, pen_zero_alpha_equal_betas, pen_mixed, stat_range, stat_first, stat_sum,
+        pen_zero, pen_zero_alpha_equal_betas, pen_mixed, stat_range, stat_first, stat_sum, stat_std1,
     ]
 }
 FUNCTIONS.update({"np.mean": np.mean, "np.median": np.median, "np.max": np.max,
